@@ -294,6 +294,23 @@ def section_display(serif, out):
         out.append("")
 
 
+def section_names(serif, out):
+    """reserved accessor names: naming._get_reserved_names() evaluated on the live classes (C17)"""
+    try:
+        from serif.naming import _get_reserved_names
+        names = sorted(_get_reserved_names())
+        if not all(isinstance(n, str) for n in names):
+            raise TypeError("reserved names are not strings")
+    except Exception:
+        out.append("/-- extraction failed: neutral value, the C17 theorems about it then fail -/")
+        out.append("def reservedNames : List String := []")
+        out.append("")
+        raise
+    out.append("/-- `naming._get_reserved_names()` on the live Vector/Table classes, sorted -/")
+    out.append("def reservedNames : List String := " + lean_list([lean_str(n) for n in names], 8))
+    out.append("")
+
+
 
 
 def generate():
